@@ -26,8 +26,10 @@ for d in "$VERIF"/ocaml/drv_*.ml; do
   n=$(basename "$d" .ml)
   if [ ! -x "$n" ] || [ "$d" -nt "$n" ] || [ model.ml -nt "$n" ] || [ "$VERIF/ocaml/glue.ml" -nt "$n" ]; then
     cp "$VERIF/ocaml/glue.ml" "$d" .
-    ocamlfind ocamlopt -O3 -w -a -package zarith,str -linkpkg model.mli model.ml glue.ml "$n.ml" -o "$n" 2> "build_$n.log" || \
-    ocamlfind ocamlopt -w -a -package zarith,str -linkpkg model.mli model.ml glue.ml "$n.ml" -o "$n" 2> "build_$n.log" || { cat "build_$n.log" >&2; echo "OCAML-BUILD-FAILED $n" >&2; exit 2; }
+    # link under a temporary name and rename: a check that is running the old binary keeps it
+    ocamlfind ocamlopt -O3 -w -a -package zarith,str -linkpkg model.mli model.ml glue.ml "$n.ml" -o "$n.new" 2> "build_$n.log" || \
+    ocamlfind ocamlopt -w -a -package zarith,str -linkpkg model.mli model.ml glue.ml "$n.ml" -o "$n.new" 2> "build_$n.log" || { cat "build_$n.log" >&2; echo "OCAML-BUILD-FAILED $n" >&2; exit 2; }
+    mv -f "$n.new" "$n"
   fi
 done
 echo OK
